@@ -32,6 +32,9 @@ func TestFamily(t *testing.T) {
 		scs = graceFamily()
 	case "direct":
 		scs = directFamily()
+	case "race":
+		runtime.GOMAXPROCS(8)
+		scs = raceFamily(seed, EnvInt("VERIF_NRANDOM", 6))
 	case "reent":
 		scs = reentFamily()
 	case "limit":
